@@ -210,7 +210,7 @@ PROPS = {
         'gen_sections': ['Cookies'],
         'drivers': [{'name': 'cook'}],
         'reasons': ['C14.'],
-        'class_fields': {'setcookie': ['sso', 'cfgsecure', 'cfgsamesite', 'op', 'class', 'clear', 'domain', 'path', 'secure', 'samesite'], 'jar': ['after', 'status', 'names', 'sso'],
+        'class_fields': {'setcookie': ['sso', 'cfgsecure', 'cfgsamesite', 'op', 'class', 'clear', 'domain', 'path', 'secure', 'samesite'], 'jar': ['after', 'status', 'names', 'sso'], 'cookieval14': ['secure', 'samesite', 'hostnames', 'schemes', 'accepted'],
                          'retrychain': ['cause', 'statuses'], 'retryreset': ['via', 'after'], 'ratelimit': ['enabled', 'logins', 'windowms', 'session', 'statuses', 'afterwindow']},
         'nontrivial': {},
         'rule': "cook driver: 7 configurations (secure x https / http-localhost ingress x path prefix x SSO domain with/without dot x same-site); every Set-Cookie of login, callback, the four logout variants, logout callback and "
@@ -230,7 +230,7 @@ PROPS = {
         'reasons': ['C17.'],
         'class_fields': {'setcookie': ['op', 'class', 'clear'], 'jar': ['after'], 'retrychain': ['cause', 'statuses', 'sso'], 'retryreset': ['via', 'before', 'after'],
                          'ratelimit': ['enabled', 'logins', 'windowms', 'session', 'statuses', 'afterwindow', 'maxage']},
-        'nontrivial': {'setcookie': lambda f: False, 'jar': lambda f: False},
+        'nontrivial': {'setcookie': lambda f: False, 'jar': lambda f: False, 'cookieval14': lambda f: False},
         'rule': "cook driver: a cookie-keeping browser is sent round the failing loop (callback without cookie, bad state, provider 5xx, provider 4xx, logout on an unconfigured host) 7 times per cause and configuration; "
                 "success after failures (login, logout callback); rate limit grid enabled x logins {0,1,2,5} x window {0.5,1,5,90 s} x with/without session with the jar clock moved past the window. distinct = (cause/config, status sequence).",
         'level_text': "Proof: from any counter a browser can hold, at most three consecutive failures are answered with the retry redirect and the error page is terminal (induction over the failure run with a budget function; bound = the constant "
